@@ -46,11 +46,17 @@ impl ClosestNodes {
 
     /// Add a node.
     pub fn add(&mut self, node: Node) {
-        let seek = node.id().xor(&self.target);
-
         if node.already_exists(&self.nodes) {
             return;
         }
+
+        self.insert(node)
+    }
+
+    /// Insert a node at its sorted position without applying the same-IP admission
+    /// rule, for nodes that were already vetted by a [crate::RoutingTable].
+    pub(crate) fn insert(&mut self, node: Node) {
+        let seek = node.id().xor(&self.target);
 
         if let Err(pos) = self.nodes.binary_search_by(|prope| {
             if prope.is_secure() && !node.is_secure() {
